@@ -61,7 +61,8 @@ def plan(seed, subbatch):
         max_span_s=(600 * tf_s if tf else None))
     out = [{"op": "new", "preload": pre, "calculate": True}] + ops + [{"op": "check"}]
     return {"format": 1, "property": ID, "seed": seed, "subbatch": subbatch,
-            "config": {"kind": kind, "members": members, "hexital": hexcfg, "base_s": base_s},
+            "config": {"kind": kind, "members": members, "hexital": hexcfg, "base_s": base_s,
+                       "utc_offset_min": cfg.choice((None, None, None, 60, 330, -210))},
             "ops": out, "fired": dict(fired)}
 
 
@@ -95,6 +96,16 @@ def _has_reading(full):
 
 
 def execute(trace, ctx=None):
+    from .. import catalogue
+
+    catalogue.TZ_OFFSET_MIN = trace["config"].get("utc_offset_min")
+    try:
+        return _execute(trace)
+    finally:
+        catalogue.TZ_OFFSET_MIN = None
+
+
+def _execute(trace):
     def body(run):
         cfg = trace["config"]
         label = _label(cfg)
